@@ -371,3 +371,8 @@ def run(ctx):
         b = prog.one(r"^<%s as value::encode::ToMysqlValue>::to_mysql_bin$" % re.escape(ty))
         calls = [cname(t["func"]) for _, t in b.calls() if cname(t["func"]).endswith("to_mysql_bin")]
         ctx.ob("C07.layouts", calls == ["<%s as value::encode::ToMysqlValue>::to_mysql_bin" % target], "%s::to_mysql_bin delegates to %s" % (ty, calls), fn=b.path, construct="delegation", nontrivial=False)
+
+    # cells and rows of 16 MiB and more are split by the framer: the framing clauses (C04's rules) are part of
+    # `arrives unchanged` for the size classes this property quantifies over
+    import rules.C04 as C04
+    C04.run(ctx, configs=["tls"])
